@@ -217,7 +217,7 @@ def implRows : List Row := [
   ("vm.VirtualMachine.loadedCode", true, "vm.VirtualMachine.loadCode", false, [], false),
   ("vm.VirtualMachine.loadedCode", true, "vm.VirtualMachine.loadCode", true, cm, false),
   ("vm.VirtualMachine.loadedCode", true, "vm.VirtualMachine.reloadCode", false, [], false),
-  ("vm.VirtualMachine.loadedCode", true, "vm.VirtualMachine.reloadCode", true, [], false),
+  ("vm.VirtualMachine.loadedCode", true, "vm.VirtualMachine.reloadCode", true, cm, false),
   ("vm.VirtualMachine.loadedCode", true, "vm.VirtualMachine.resetForNewCode", true, [], false),
   ("vm.VirtualMachine.loadedCode", true, "vm.VirtualMachine.runCodeInternal", false, [], false),
   ("vm.VirtualMachine.modules", true, "vm.VirtualMachine.Clone", false, cm, false),
